@@ -543,7 +543,9 @@ def sexp(a):
     if k == "eleaf":
         return "(el %d)" % a[1][1]
     if k == "ref":
-        return sexp(a[1][1])
+        # a field_reference to an earlier virtual field: the model's `vref` constructor
+        # (type copied from the definition, constant_value unknown, a leaf for the gate)
+        return "(vref %s)" % sexp(a[1][1])
     if k == "bin":
         return "(%s %s %s)" % (SEXP_OP[a[1]], sexp(a[2]), sexp(a[3]))
     if k == "choice":
@@ -944,11 +946,13 @@ def run_text(chk, r, batch, stats, text, lets, with_model, origin, oracle=True):
             continue
         t = atype_of(root.type)
         chk.nontrivial(emb_text(ast))
-        if with_model and not has_ref(ast):
-            # whole-tree query only for reference-free expressions: a reference to a virtual
-            # field is a leaf for constant_value and for the gate (its own definition is gated
-            # as a separate top-level expression); those nodes are covered node-wise above
+        if with_model:
+            # whole-tree query; a reference to a virtual field is the model's `vref` node: a
+            # leaf for constant_value and for the gate (its own definition is gated as a
+            # separate top-level expression)
             stats["tree_queries"] = stats.get("tree_queries", 0) + 1
+            if has_ref(ast):
+                stats["tree_queries_with_vref"] = stats.get("tree_queries_with_vref", 0) + 1
             kinds = sorted(k for (_, k) in gk.get(line, []))
             want_gate = "ok" if not kinds else "err " + ",".join(kinds)
             batch.ask("TREE " + sexp(ast), "abs=%s cv=%s gate=%s" % (t, cv_of(root), want_gate),
